@@ -13,7 +13,7 @@ from common import coq_eval, frac, close, qlit, TOL_ARITH, COQ
 
 PROP_FILE = 'theories/Properties/C07.v'
 MODEL_FILES = ['theories/Spec/Measures.v', 'theories/Model/Frames.v']
-GEN_GROUPS = ['calc']
+GEN_GROUPS = ['calc', 'basefit']
 RULE = ('count functions: every table 1<=a,b,c,d<=B (B=6 quick, 11 thorough) plus random large/float tables, every '
         'single-cell corruption to 0 / negative must raise; rate functions on random (a,c,t1,t2); data-frame classes on '
         'random frames with 2-4 exposure levels (int/float/str codes), arbitrary reference, missing exposure/outcome/time; '
